@@ -231,12 +231,15 @@ var props = map[string]*propConfig{
 	},
 	"C02": {
 		Harness: "h2", Level: "exploration",
-		Families:    []family{{Name: "modes-and-calendar", Flags: map[string]string{"family": "modes"}, Quick: 12000, Thorough: 2000000}},
+		Families: []family{
+			{Name: "modes-and-calendar", Flags: map[string]string{"family": "modes"}, Quick: 12000, Thorough: 2000000},
+			{Name: "counter-api-off", Harness: "h1", Flags: map[string]string{"family": "counteroff"}, Quick: 4000, Thorough: 400000},
+		},
 		QuickBudget: 100 * time.Second, ThoroughBudget: 25 * time.Minute, Chunk: 50,
 		Rule:        "histories in which between rounds the mode changes (SetModeAsOf with back-dated opt-in dates, arbitrary bytes in the mode file, invalid modes) and counter-file begin/end, opt-in date and run time are placed on a simulated calendar; per request: the independently parsed mode is exactly on, the week is not in the future and after the opt-in date; per uploadable report: built in mode on, week not older than 21 days, X not above a positive sample rate, all data strictly after the opt-in date; rounds in mode off: no mutating call on and no change to any counter file or report; SetModeAsOf/Mode round trip and rejection of invalid modes leaving the bytes unchanged",
 		Real:        []string{"internal/upload (all of it: findWork, reports, createReport, uploadReport; instrumented)", "internal/telemetry (mode file)", "internal/config", "internal/counter.Parse (uninstrumented in this world)", "cmd/gotelemetry runOn/runLocal/runOff/runClean", "Linux tmpfs (O_EXCL, link, rename semantics are the kernel's)"},
 		Stub:        []string{"internal/configstore.Download replaced by a stub that hands out the simulated config store's current version (the real one runs `go mod download`)", "upload server: a policy stub deciding each request's fate (200 / 4xx / 5xx / no answer / processed-but-answer-lost / duplicate delivery); its verdict on a given body is stable", "counter files are produced by the independent encoder (refformat)", "crypto/rand.Reader replaced so that X is chosen by the tape", "Go scheduler, wall clock"},
-		Assumptions: []string{"the counter API's behaviour in mode off is exercised by H1 (Open does nothing); here the uploader side", "an unreadable mode file is modelled by content the parser cannot read, not by permissions (the sandbox runs as root)"},
+		Assumptions: []string{"counter-api-off family (counter world): with the mode file saying off when the process starts, Open / OpenAndRotate (package-level and per-file), increments, the rotation timer and clock jumps perform no mutating file-system call and leave the directory (incl. data left from earlier) byte-identical", "an unreadable mode file is modelled by content the parser cannot read, not by permissions (the sandbox runs as root)"},
 		Probes:      []string{"week-reported"},
 	},
 	"C19": {
